@@ -99,7 +99,7 @@ class Gamma:
         return C.array(self.E, out)
 
 
-def instrument(E, obj, n, mod, gamma_of_T_only=False):
+def instrument(E, obj, n, mod, gamma_of_T_only=False, ideal_objects=False):
     def psat(i):
         def f(T):
             p = E.uf(f'Psat{i}', T)
@@ -107,6 +107,10 @@ def instrument(E, obj, n, mod, gamma_of_T_only=False):
             return p
         return f
     obj.Psats = [psat(i) for i in range(n)]
+    real = mod.flx.real if isinstance(mod.flx, Flx) else mod.flx
+    C.setg(mod, 'flx', Flx(E, real))
+    if ideal_objects:
+        return          # the real ideal activity / fugacity / Poynting objects of the ideal package stay in place
     obj.gamma = Gamma(E, n, gamma_of_T_only)
 
     def pcf(T, P, Psats):
@@ -117,8 +121,6 @@ def instrument(E, obj, n, mod, gamma_of_T_only=False):
             out.append(c)
         return C.array(E, out)
     obj.pcf = pcf
-    real = mod.flx.real if isinstance(mod.flx, Flx) else mod.flx
-    C.setg(mod, 'flx', Flx(E, real))
 
 
 def zvec(E, n):
@@ -136,10 +138,13 @@ def g_bubble(ns=(2, 3)):
         th = _fx['th']
         n = E.pick(list(ns), 'n-components')
         chems = th.chemicals.tuple[:n]
-        bp = bpm.BubblePoint(chems, th)
+        # 'ideal': the solver object of the IDEAL package with its own (real) activity, fugacity and Poynting
+        # objects - only the vapour pressures are unknown functions
+        models = E.pick(['uninterpreted', 'ideal'], 'models')
+        bp = bpm.BubblePoint(chems, th if models == 'uninterpreted' else th.ideal())
         saved = (bp.Psats, bp.gamma, bp.pcf)
         try:
-            instrument(E, bp, n, bpm)
+            instrument(E, bp, n, bpm, ideal_objects=(models == 'ideal'))
             which = E.pick(['solve_Ty', 'solve_Py'], 'which')
             z = zvec(E, n)
             zs = sum(z)
@@ -153,17 +158,20 @@ def g_bubble(ns=(2, 3)):
                 P, y = bp.solve_Py(C.array(E, z), T)
             y = list(y)
             zn = [x / zs for x in z]
-            w = [zn[i] * E.uf(f'gamma{i}', *zn, T) * E.uf(f'pcf{i}', T, P) * E.uf(f'Psat{i}', T) / P for i in range(n)]
+            if models == 'ideal':
+                w = [zn[i] * E.uf(f'Psat{i}', T) / P for i in range(n)]
+            else:
+                w = [zn[i] * E.uf(f'gamma{i}', *zn, T) * E.uf(f'pcf{i}', T, P) * E.uf(f'Psat{i}', T) / P for i in range(n)]
             sw = sum(w)
             E.observe('y0', y[0])
             # below 1e-16 normalize() returns equal fractions by design (solve_Py works on the normalised z)
             big = (sw >= 1e-16)
             # given the root finder's contract (it returns a root of the residual it was handed), the mole fractions
             # implied by modified Raoult's law for the NORMALISED liquid composition sum to one at the returned point
-            E.prove('bubble-point-makes-the-Raoult-vapour-fractions-sum-to-one', E.eq(sw, 1.0), sig=f'{which}/n={n}')
-            E.prove('bubble-composition-normalised', E.implies(big, E.eq(sum(y), 1.0)), sig=f'{which}/n={n}')
+            E.prove('bubble-point-makes-the-Raoult-vapour-fractions-sum-to-one', E.eq(sw, 1.0), sig=f'{which}/n={n}/{models}')
+            E.prove('bubble-composition-normalised', E.implies(big, E.eq(sum(y), 1.0)), sig=f'{which}/n={n}/{models}')
             E.prove('bubble-composition-is-modified-Raoult-at-the-returned-point',
-                    E.implies(big, E.all([E.eq(y[i] * sw, w[i]) for i in range(n)])), sig=f'{which}/n={n}')
+                    E.implies(big, E.all([E.eq(y[i] * sw, w[i]) for i in range(n)])), sig=f'{which}/n={n}/{models}')
         finally:
             bp.Psats, bp.gamma, bp.pcf = saved
     return run
@@ -175,13 +183,15 @@ def g_dew(ns=(2, 3)):
         th = _fx['th']
         n = E.pick(list(ns), 'n-components')
         chems = th.chemicals.tuple[:n]
-        dp = dpm.DewPoint(chems, th)
+        # with activity coefficients that depend on T only (or the real objects of the ideal package) the Wegstein
+        # iteration is exact after one step and the residual handed to the root finder can be compared with the
+        # defining equation
+        models = E.pick(['x-dependent', 'T-only', 'ideal'], 'activity-coefficients')
+        simple = models != 'x-dependent'
+        dp = dpm.DewPoint(chems, th if models != 'ideal' else th.ideal())
         saved = (dp.Psats, dp.gamma, dp.pcf)
         try:
-            # with activity coefficients that depend on T only the Wegstein iteration is exact after one step and the
-            # residual handed to the root finder can be compared with the defining equation
-            simple = E.choice(2, 'activity-coefficients-depend-on-T-only')
-            instrument(E, dp, n, dpm, gamma_of_T_only=bool(simple))
+            instrument(E, dp, n, dpm, gamma_of_T_only=(models == 'T-only'), ideal_objects=(models == 'ideal'))
             which = E.pick(['solve_Tx', 'solve_Px'], 'which')
             z = zvec(E, n)
             zs = sum(z)
@@ -194,13 +204,16 @@ def g_dew(ns=(2, 3)):
                 P, x = dp.solve_Px(C.array(E, z), T)
             x = list(x)
             E.observe('x0', x[0])
-            E.prove('dew-composition-normalised', E.eq(sum(x), 1.0), sig=f'{which}/n={n}')
-            E.prove('dew-composition-non-negative', E.all([E.ge(v, 0.0) for v in x]), sig=f'{which}/n={n}')
-            if simple:
+            E.prove('dew-composition-normalised', E.eq(sum(x), 1.0), sig=f'{which}/n={n}/{models}')
+            E.prove('dew-composition-non-negative', E.all([E.ge(v, 0.0) for v in x]), sig=f'{which}/n={n}/{models}')
+            if models == 'ideal':
+                w = [(z[i] / zs) * P / E.uf(f'Psat{i}', T) for i in range(n)]
+            elif simple:
                 w = [(z[i] / zs) * P / (E.uf(f'Psat{i}', T) * E.uf(f'gammaT{i}', T) * E.uf(f'pcf{i}', T, P)) for i in range(n)]
+            if simple:
                 sw = sum(w)
-                E.prove('dew-point-makes-the-Raoult-liquid-fractions-sum-to-one', E.eq(sw, 1.0), sig=f'{which}/n={n}')
-                E.prove('dew-composition-is-modified-Raoult-at-the-returned-point', E.all([E.eq(x[i] * sw, w[i]) for i in range(n)]), sig=f'{which}/n={n}')
+                E.prove('dew-point-makes-the-Raoult-liquid-fractions-sum-to-one', E.eq(sw, 1.0), sig=f'{which}/n={n}/{models}')
+                E.prove('dew-composition-is-modified-Raoult-at-the-returned-point', E.all([E.eq(x[i] * sw, w[i]) for i in range(n)]), sig=f'{which}/n={n}/{models}')
         finally:
             dp.Psats, dp.gamma, dp.pcf = saved
     return run
